@@ -83,6 +83,17 @@ def ensure_harness(profile="debug", features=()):
     if key in _harness_cache:
         return _harness_cache[key]
     hdir = os.path.join(VERIF, "harness")
+    if REPO != "/repo":
+        # development only (E57_REPO set: a scratch copy of the crate, e.g. with a
+        # candidate repair or a seeded change): build a copy of the harness whose
+        # dependency points at that copy; the registered commands never set E57_REPO
+        src = hdir
+        hdir = os.path.join(CACHE, "harness-src")
+        os.makedirs(hdir, exist_ok=True)
+        sh(["rsync", "-a", "--delete", "--exclude", "target", "--exclude", "Cargo.lock", src + "/", hdir + "/"])
+        toml = os.path.join(hdir, "Cargo.toml")
+        text = open(toml).read().replace('path = "/repo"', 'path = "%s"' % REPO)
+        open(toml, "w").write(text)
     lock_src = os.path.join(REPO, "Cargo.lock")
     if os.path.exists(lock_src) and not os.path.exists(os.path.join(hdir, "Cargo.lock")):
         shutil.copy(lock_src, os.path.join(hdir, "Cargo.lock"))
